@@ -50,6 +50,9 @@ class DateTime(Parseable[datetime]):
 
     def __bytes__(self) -> bytes:
         if self._raw is None:
-            raw_str = self.value.strftime('%d-%b-%Y %X %z')
+            # strftime does not pad the year to the four digits of date-year
+            when = self.value
+            raw_str = '%s-%04d %s' % (when.strftime('%d-%b'), when.year,
+                                      when.strftime('%X %z'))
             self._raw = bytes(raw_str, 'ascii')
         return BytesFormat(b'"%b"') % (self._raw, )
